@@ -108,7 +108,7 @@ func (k *Kit) buildCRL(beh string, slot int) *CRLSet {
 		return &CRLSet{Beh: beh, Class: CRLBad, BaseDER: src.BaseDER, Bundle: src.Bundle}
 	}
 	switch beh {
-	case "fetch-fail", "http-404", "http-500", "err", "timeout", "garbage", "empty":
+	case "fetch-fail", "http-404", "http-500", "err", "timeout", "garbage", "empty", "oversize":
 		return set
 	}
 	serial := k.Cert.SerialNumber
@@ -380,6 +380,10 @@ func (k *Kit) CRLHandlers(net *netsim.Sim, slot int, beh string) {
 		return
 	case "garbage":
 		net.Handle(basePath, mk(netsim.Reply{Body: []byte("-----BEGIN X509 CRL-----\nnope\n")}, "base"))
+		return
+	case "oversize":
+		// streams one byte more than the fetcher's 32 MiB cap
+		net.Handle(basePath, mk(netsim.Reply{Stream: 32*1024*1024 + 1}, "base"))
 		return
 	case "empty":
 		net.Handle(basePath, mk(netsim.Reply{Body: []byte{}}, "base"))
